@@ -117,7 +117,7 @@ pub fn gen_text(r: &mut Rng, out: &mut Vec<u8>) {
 }
 
 pub fn gen_op(r: &mut Rng, d: Dim, out: &mut Vec<u8>, f: &Feat) {
-    match r.below(76) {
+    match r.below(80) {
         0..=15 => gen_text(r, out),
         16 | 17 => out.push(*r.pick(&[8u8, 9, 10, 11, 12, 13, 13, 10])),
         18 => out.extend(b"\r\n"),
@@ -256,6 +256,10 @@ pub fn gen_op(r: &mut Rng, d: Dim, out: &mut Vec<u8>, f: &Feat) {
             let k = 70 + r.below(8);
             idiom_n(r, d, out, k);
         }
+        76..=79 => {
+            let k = 78 + r.below(6);
+            idiom_n(r, d, out, k);
+        }
         _ => gen_text(r, out),
     }
 }
@@ -366,10 +370,19 @@ pub fn idiom_n(r: &mut Rng, d: Dim, out: &mut Vec<u8>, k: u64) {
                 }
                 out.push(b'w'); // wraps: the row above is now flagged
                 out.extend(b"\x1b[A");
-                let col = d.cols - r.below(3) as u16;
-                out.extend(format!("\x1b[{col}G").as_bytes());
-                let op = *r.pick(&["\x1b[X", "\x1b[K", "\x1b[J", "\x1b[1K", "\x1b[2X", "\x1b[P", "\x1b[@", "\x1b[1J", "x", "\x1b[3X"]);
-                out.extend(op.as_bytes());
+                if r.chance(1, 4) {
+                    // a wide character whose second half lands on the first half of the wide
+                    // character in the last two columns: the receiver blanks the last column and
+                    // clears the wrap flag
+                    let col = d.cols.saturating_sub(2 + r.below(2) as u16).max(1);
+                    out.extend(format!("\x1b[{col}G").as_bytes());
+                    out.extend(r.pick(WIDE).as_bytes());
+                } else {
+                    let col = d.cols - r.below(3) as u16;
+                    out.extend(format!("\x1b[{col}G").as_bytes());
+                    let op = *r.pick(&["\x1b[X", "\x1b[K", "\x1b[J", "\x1b[1K", "\x1b[2X", "\x1b[P", "\x1b[@", "\x1b[1J", "x", "\x1b[3X"]);
+                    out.extend(op.as_bytes());
+                }
             }
         }
         70 | 71 => {
@@ -464,6 +477,88 @@ pub fn idiom_n(r: &mut Rng, d: Dim, out: &mut Vec<u8>, k: u64) {
             let pre = *r.pick(&["", "1;", "0;", "4;31;"]);
             let c = *r.pick(&["38", "48", "38;2", "38;5", "48;2;1", "48;2;1;2", "38;9", "38;2;256;1;1", "38;5;300", "38;;5", "38;2;;", "48;5;", "38:2", "38:5", "38:2:1:2", "38:", "38;2:1"]);
             out.extend(format!("\x1b[{pre}{c}m").as_bytes());
+            gen_text(r, out);
+        }
+        78 => {
+            // palette indices at the boundaries of the short / bright / 256-colour encodings
+            let fgbg = *r.pick(&["38", "48"]);
+            let idx = *r.pick(&[0u32, 1, 7, 8, 9, 15, 16, 17, 231, 232, 254, 255]);
+            out.extend(format!("\x1b[{fgbg};5;{idx}m").as_bytes());
+            gen_text(r, out);
+        }
+        79 => {
+            // a scroll region with the cursor outside it, then a line operation
+            if d.rows >= 3 {
+                let t = 1 + r.below(u64::from(d.rows) - 2);
+                let bt = t + 1 + r.below(u64::from(d.rows) - t - 1).min(2);
+                out.extend(format!("\x1b[{t};{bt}r").as_bytes());
+                let row = if r.chance(1, 2) { bt + 1 + r.below(u64::from(d.rows) - bt) } else { 1 + r.below(t) };
+                out.extend(format!("\x1b[{row};1H").as_bytes());
+                let fin = *r.pick(&['M', 'L', 'S', 'T', 'M', 'L']);
+                let p = param(r, d);
+                out.extend(format!("\x1b[{p}{fin}").as_bytes());
+                if r.chance(1, 2) {
+                    out.extend(b"\n\n");
+                }
+            }
+        }
+        80 => {
+            // C1 controls and the characters next to them, whole or split by the caller's cuts
+            let c = *r.pick(&["\u{80}", "\u{84}", "\u{85}", "\u{8d}", "\u{90}", "\u{9b}", "\u{9c}", "\u{9d}", "\u{9e}", "\u{9f}", "\u{a0}", "\u{7f}"]);
+            if r.chance(1, 2) {
+                out.extend(r.pick(LATIN).as_bytes());
+            }
+            out.extend(c.as_bytes());
+            out.push(b'a' + r.below(26) as u8);
+        }
+        81 => {
+            // several private modes in one sequence, unknown ones in between
+            let known = ["1", "6", "9", "25", "47", "1000", "1002", "1003", "1005", "1006", "1049", "2004"];
+            let unk = ["0", "2", "3", "4", "5", "7", "12", "1001", "1004", "1015", "2026", "9999", "65535", "65536"];
+            let mut ps: Vec<&str> = vec![];
+            for _ in 0..(2 + r.below(4)) {
+                ps.push(if r.chance(1, 3) { *r.pick(&unk) } else { *r.pick(&known) });
+            }
+            let fin = if r.chance(1, 2) { 'h' } else { 'l' };
+            out.extend(format!("\x1b[?{}{}", ps.join(";"), fin).as_bytes());
+        }
+        82 => {
+            // DECSC with origin mode / region / pen, leave the region or change the mode, DECRC
+            if d.rows >= 3 {
+                let t = 1 + r.below(u64::from(d.rows) - 1);
+                let bt = t + 1 + r.below(u64::from(d.rows) - t);
+                out.extend(format!("\x1b[{t};{bt}r").as_bytes());
+                if r.chance(2, 3) {
+                    out.extend(b"\x1b[?6h");
+                }
+                out.extend(format!("\x1b[{};{}H\x1b[3{}m", 1 + r.below(u64::from(d.rows)), 1 + r.below(u64::from(d.cols)), r.below(8)).as_bytes());
+                out.extend(*r.pick(&[&b"\x1b7"[..], b"\x1b[s", b"\x1b[?1049h"]));
+                match r.below(4) {
+                    0 => out.extend(b"\x1b[?6l\x1b[H"),
+                    1 => out.extend(b"\x1b[r\x1b[999;1H"),
+                    2 => out.extend(format!("\x1b[{};1H\x1b[0m", 1 + r.below(u64::from(d.rows))).as_bytes()),
+                    _ => {
+                        // a new region that excludes the saved row
+                        if t >= 3 {
+                            out.extend(format!("\x1b[1;{}r", t - 1).as_bytes());
+                        } else if bt + 1 < u64::from(d.rows) {
+                            out.extend(format!("\x1b[{};{}r", bt + 1, d.rows).as_bytes());
+                        } else {
+                            out.extend(b"\x1b[1;2r");
+                        }
+                    }
+                }
+                out.extend(*r.pick(&[&b"\x1b8"[..], b"\x1b[u", b"\x1b[?1049l"]));
+                out.push(b'x');
+            }
+        }
+        83 => {
+            // escape sequences with intermediates and every kind of final byte, incl. ST's
+            let inter = *r.pick(&["(", ")", "#", " ", "%", "$", "( ", "*"]);
+            let fin = *r.pick(&[b'\\', b'7', b'8', b'c', b'M', b'D', b'E', b'=', b'>', b'B', b'0', b'g', b'~']);
+            out.extend(b"\x1b");
+            out.extend(inter.as_bytes());
+            out.push(fin);
             gen_text(r, out);
         }
         _ => {}
@@ -810,7 +905,11 @@ pub fn fam_modes(r: &mut Rng) -> Case {
     let n = 1 + r.below(6);
     let mut b = vec![];
     for _ in 0..n {
-        b.extend(r.pick(&seqs).as_bytes());
+        if r.chance(1, 5) {
+            idiom_n(r, d, &mut b, 81); // several private modes in one sequence, unknown ones in between
+        } else {
+            b.extend(r.pick(&seqs).as_bytes());
+        }
     }
     lines.push(format!("P {}", hex(&b)));
     lines.push("SNAP 0".into());
@@ -841,7 +940,11 @@ pub fn fam_sgr(r: &mut Rng) -> Case {
                 let k = *r.pick(&["38", "48"]);
                 let sep = *r.pick(&[";", ":"]);
                 match r.below(3) {
-                    0 => b.extend(format!("\x1b[{k}{sep}5{sep}{}m", r.below(300)).as_bytes()),
+                    0 => {
+                        // half of the time an index at a boundary of the short/bright/256 encodings
+                        let idx = if r.chance(1, 2) { *r.pick(&[0u64, 7, 8, 15, 16, 17, 231, 232, 255, 256]) } else { r.below(300) };
+                        b.extend(format!("\x1b[{k}{sep}5{sep}{idx}m").as_bytes())
+                    }
                     1 => b.extend(format!("\x1b[{k}{sep}2{sep}{}{sep}{}{sep}{}m", r.below(300), r.below(260), r.below(256)).as_bytes()),
                     _ => b.extend(format!("\x1b[{k}{sep}{}m", r.below(7)).as_bytes()),
                 }
@@ -935,7 +1038,15 @@ pub fn fam_alt(r: &mut Rng) -> Case {
     let (d, cap, nl) = new_line(r, 1, false);
     let mut lines = vec![nl];
     let f = Feat { alt: false, ris: false, region: true, osc: false, garbage: false, modes: true, resize_csi: false };
-    let b = gen_stream_n(r, d, 10, &f);
+    let mut b = gen_stream_n(r, d, 10, &f);
+    if r.chance(1, 3) {
+        // a save/restore excursion with origin mode, a region and a pen (idiom 82)
+        idiom_n(r, d, &mut b, 82);
+        if r.chance(1, 2) {
+            let more = gen_stream_n(r, d, 4, &f);
+            b.extend(more);
+        }
+    }
     p_lines(r, &b, &mut lines);
     if cap > 0 && r.chance(1, 2) {
         lines.push(format!("SB {}", r.below(4)));
@@ -944,7 +1055,12 @@ pub fn fam_alt(r: &mut Rng) -> Case {
     let enter = *r.pick(&["\x1b[?47h", "\x1b[?1049h"]);
     lines.push(format!("P {}", hex(enter.as_bytes())));
     lines.push("DUMP".into());
-    let b2 = gen_stream_n(r, d, 10, &f);
+    let mut b2 = gen_stream_n(r, d, 10, &f);
+    if r.chance(1, 3) {
+        // wrap / wide-character situations while the alternate grid is the drawing grid
+        let k = *r.pick(&[60u64, 61, 62, 64, 66, 69, 69]);
+        idiom_n(r, d, &mut b2, k);
+    }
     p_lines(r, &b2, &mut lines);
     if r.chance(1, 4) {
         lines.push(format!("SB {}", r.below(4)));
